@@ -37,6 +37,7 @@ THEOREMS = [
     "O2P.Gate.missing_and_all_sound",
     "O2P.Gate.filter_defunct_sound",
     "O2P.Gate.post_process_sound",
+    "O2P.Gate.post_process_admits",
 ]
 
 
